@@ -1,0 +1,26 @@
+//go:build verif
+
+package control
+
+// Verification hooks (build tag "verif"). They only observe or yield; with the
+// tag off the functions in verif_hooks_off.go are empty and inlined away.
+
+// VerifDomainRoutingObserver, when set, receives the batches syncOwner computed
+// for the kernel domain_routing_map (the stub build cannot write a real map).
+var VerifDomainRoutingObserver func(ownerKey string, keysToUpdate [][4]uint32, valuesToUpdate []bpfDomainRouting, keysToDelete [][4]uint32)
+
+func verifObserveDomainRouting(ownerKey string, keysToUpdate [][4]uint32, valuesToUpdate []bpfDomainRouting, keysToDelete [][4]uint32) {
+	if f := VerifDomainRoutingObserver; f != nil {
+		f(ownerKey, keysToUpdate, valuesToUpdate, keysToDelete)
+	}
+}
+
+// VerifYield, when set, is called at named interleaving points so that a
+// test-side scheduler can order racing steps deterministically.
+var VerifYield func(point string)
+
+func verifYield(point string) {
+	if f := VerifYield; f != nil {
+		f(point)
+	}
+}
